@@ -34,6 +34,9 @@ func c01(c *Ctx) {
 		n = 6000
 	}
 	progs := pipelineCorpus()
+	sw := sweepProgs(c, map[bool]int{false: 10, true: 1}[c.Thorough()])
+	progs = append(progs, sw...)
+	n += len(sw)
 	for len(progs) < n {
 		nv := []int{3, 8, 14, 18, 24}[rng.Intn(5)]
 		progs = append(progs, genProg(rng, ProgOpts{MaxNodes: 8 + rng.Intn(50), Malformed: false, Phys: rng.Chance(60), Synth: rng.Chance(60), NVirt: nv, Branches: rng.Chance(70)}))
